@@ -28,9 +28,19 @@ TIER_DEFAULTS = {
 }
 
 
+REPO = os.environ.get('VERIF_REPO', '/repo')
+ALT = os.path.abspath(REPO) != '/repo'
+# VERIF_REPO=<checkout> runs the checks against another checkout of teneva (used
+# to try seeded changes in scratch worktrees); evidence/replays then go to .work/
+EVID_DIR = os.path.join(ROOT, '.work', 'alt-' + os.path.basename(REPO.rstrip('/')), 'evidence') if ALT \
+    else os.path.join(ROOT, 'evidence')
+REPLAY_DIR = os.path.join(ROOT, '.work', 'alt-' + os.path.basename(REPO.rstrip('/')), 'replays') if ALT \
+    else os.path.join(ROOT, 'replays')
+
+
 def _env():
     e = dict(os.environ)
-    e['PYTHONPATH'] = ROOT + os.pathsep + e.get('PYTHONPATH', '')
+    e['PYTHONPATH'] = os.path.abspath(REPO) + os.pathsep + ROOT + os.pathsep + e.get('PYTHONPATH', '')
     e['PYTHONWARNINGS'] = 'ignore'
     e['OMP_NUM_THREADS'] = '1'
     e['OPENBLAS_NUM_THREADS'] = '1'
@@ -176,7 +186,7 @@ def main(argv=None):
     known_hits = []
     inconclusive = []
     harness_errors = []
-    os.makedirs(os.path.join(ROOT, 'replays'), exist_ok=True)
+    os.makedirs(REPLAY_DIR, exist_ok=True)
     agg = {'paths': 0, 'decisions': 0, 'validated': 0, 'claims': 0, 'discharged': 0,
            'claims_unknown': 0, 'obligations': 0, 'obligations_discharged': 0,
            'canaries_refuted': 0, 'canaries_total': 0, 'aborted_paths': 0,
@@ -279,7 +289,7 @@ def main(argv=None):
             if kf:
                 known_hits.append((kf[0], key))
                 continue
-            rp = os.path.join(ROOT, 'replays', f'{pid}-{tag}.json')
+            rp = os.path.join(REPLAY_DIR, f'{pid}-{tag}.json')
             json.dump(rec, open(rp, 'w'), indent=1, default=str)
             violations.append((rp, key, obs))
 
@@ -327,8 +337,8 @@ def main(argv=None):
         'assumptions': (getattr(mod, 'ASSUMPTIONS', []) + assumptions)[:60],
         'wall_s': round(wall, 2), 'violations': len(violations),
     }
-    os.makedirs(os.path.join(ROOT, 'evidence'), exist_ok=True)
-    json.dump(ev, open(os.path.join(ROOT, 'evidence', f'{pid}.json'), 'w'), indent=1, default=str)
+    os.makedirs(EVID_DIR, exist_ok=True)
+    json.dump(ev, open(os.path.join(EVID_DIR, f'{pid}.json'), 'w'), indent=1, default=str)
     shutil.rmtree(workdir, ignore_errors=True)
     print(f"{pid} {tier}: instances={len(tasks)} paths={agg['paths']} decisions={agg['decisions']} "
           f"claims={agg['discharged']}/{agg['claims']} obligations={agg['obligations_discharged']}/"
